@@ -217,3 +217,148 @@ func c10ForcedModifiers(ctx *core.Ctx, cc *CC) {
 	}
 	_ = n
 }
+
+// c10IncludeDir — C10.R11: an include is a path relative to the file that
+// contains the include statement. Where the parser recurses for an include (a
+// recursive call inside the loop over .Includes), a path argument of the
+// recursion is built from that file's own directory (filepath.Dir of the file
+// being parsed, or the Dir field it was stored in) — not handed down from the
+// root unchanged.
+func c10IncludeDir(ctx *core.Ctx, cc *CC) {
+	ctx.Rule("C10.R11", "includes are resolved relative to the including file: the recursive parse of an include gets a path built from the directory of the file being parsed", 1)
+	pp := cc.Pkg("parser")
+	if pp == nil {
+		return
+	}
+	res := cc.Resolver()
+	// P: the function that opens and parses one file and (through itself or helpers) its includes
+	reaches := func(from, to *ssa.Function) bool {
+		seen := map[*ssa.Function]bool{}
+		var walk func(g *ssa.Function, d int) bool
+		walk = func(g *ssa.Function, d int) bool {
+			if seen[g] || d < 0 {
+				return false
+			}
+			seen[g] = true
+			for _, c := range ssax.Calls(g) {
+				for _, t := range res(c) {
+					if t == to {
+						return true
+					}
+					if t != nil && t.Pkg == pp && walk(t, d-1) {
+						return true
+					}
+				}
+			}
+			return false
+		}
+		return walk(from, 2)
+	}
+	n := 0
+	for _, P := range cc.Fns {
+		if P.Pkg != pp || len(ssax.CallsTo(P, "os.Open")) == 0 || !reaches(P, P) {
+			continue
+		}
+		// every call of P made from inside its own recursion
+		for _, caller := range cc.Fns {
+			if caller.Pkg != pp || !(caller == P || (reaches(P, caller) && reaches(caller, P))) {
+				continue
+			}
+			var dirs []ssa.Value // directory of the file being parsed, as seen in the caller
+			ssax.Instrs(caller, func(in ssa.Instruction) {
+				if c, ok := ssax.AsCall(in); ok && (c.FullName() == "path/filepath.Dir" || c.FullName() == "path.Dir") {
+					if v, isV := in.(ssa.Value); isV {
+						dirs = append(dirs, v)
+					}
+				}
+				if u, ok := in.(*ssa.UnOp); ok && fieldNameOfValue(u) == "Dir" {
+					dirs = append(dirs, u)
+				}
+			})
+			for _, c := range ssax.Calls(caller) {
+				hit := false
+				for _, t := range res(c) {
+					if t == P {
+						hit = true
+					}
+				}
+				if !hit {
+					continue
+				}
+				n++
+				ok := false
+				for _, a := range c.Args() {
+					if b, isB := a.Type().Underlying().(*types.Basic); !isB || b.Kind() != types.String {
+						continue
+					}
+					for _, d := range dirs {
+						if dependsOn(a, d, 0) {
+							ok = true
+						}
+					}
+				}
+				ctx.Check(ok, "C10.R11", QName(caller)+sprintf(" › include #%d is opened relative to the including file", n), cc.IPos(c.Instr), "a path argument of the recursion is built from filepath.Dir of the current file",
+					"no path argument of the recursive parse depends on the directory of the file being parsed (the root's directory is handed down instead): an included file in another directory that includes a sibling by relative path is rejected with 'no such file' — or a same-named file next to the root is parsed silently in its place")
+			}
+		}
+	}
+	if n == 0 {
+		ctx.Unresolved("C10.R11", "include recursion", "no recursive file parser found in package parser")
+	}
+}
+
+// c10JSONAnnotations — C10.R12: the JSON descriptor (-gen json) is the
+// machine-readable form of the parsed model; a type's annotations are part of
+// it at every depth. Every conversion of a parser.Type in package json goes
+// through a function that copies that type's Annotations: a "raw" converter
+// (one that does not read them) is only ever called on a value whose
+// annotations the caller itself copies.
+func c10JSONAnnotations(ctx *core.Ctx, cc *CC) {
+	ctx.Rule("C10.R12", "the JSON descriptor keeps type annotations at every depth: a converter that ignores a type's annotations is called only on a type whose annotations the caller copies", 1)
+	jp := cc.Pkg("generator/json")
+	if jp == nil {
+		jp = cc.Pkg("json")
+	}
+	if jp == nil {
+		ctx.Unresolved("C10.R12", "json generator", "package not loaded")
+		return
+	}
+	readsAnn := func(fn *ssa.Function, v ssa.Value) bool {
+		found := false
+		ssax.Instrs(fn, func(in ssa.Instruction) {
+			if fa, ok := in.(*ssa.FieldAddr); ok && ssax.Strip(fa.X) == ssax.Strip(v) {
+				st := fa.X.Type().Underlying().(*types.Pointer).Elem().Underlying().(*types.Struct)
+				if st.Field(fa.Field).Name() == "Annotations" {
+					found = true
+				}
+			}
+		})
+		return found
+	}
+	n := 0
+	for _, fn := range cc.Fns {
+		if fn.Pkg != jp {
+			continue
+		}
+		for _, c := range ssax.Calls(fn) {
+			g := c.Static
+			if g == nil || g.Pkg != jp || len(g.Blocks) == 0 {
+				continue
+			}
+			for i, a := range c.Common.Args {
+				if i >= len(g.Params) || !ssax.TypeNamed(a.Type(), "parser", "Type") {
+					continue
+				}
+				if readsAnn(g, g.Params[i]) {
+					continue // an annotated conversion
+				}
+				n++
+				ctx.Check(readsAnn(fn, a), "C10.R12", QName(fn)+sprintf(" › raw conversion #%d of a type whose annotations are copied here", n), cc.IPos(c.Instr), "the caller reads .Annotations of the value it converts raw",
+					"a type is converted by "+g.Name()+", which ignores its annotations, and the caller does not copy them either: annotations on this type (an element, key or value type of a container, say) are missing from the JSON descriptor")
+			}
+		}
+	}
+	if n == 0 {
+		ctx.Discharge("C10.R12", "json › no raw type conversion", "", "every converter of parser.Type copies the annotations itself")
+	}
+}
